@@ -87,6 +87,9 @@ Section Content.
       if (ofs <? N.of_nat c)%N then (PErr EGuard c, ctx)
       else
         (* 681cda4: buf.set_cursor(ofs)? — the object is read at its declared offset *)
+        (* set_cursor: start + ofs <= end, else EndOfBuffer with the cursor unmoved (compared in N:
+           a huge declared offset is never converted to nat) *)
+        if (N.of_nat (len s) <? ofs)%N then (PErr EEndOfBuffer c, ctx) else
         match set_cursor s c (N.to_nat ofs) with
         | PErr k c' => (PErr k c', ctx)
         | PPanic => (PPanic, ctx)
